@@ -5,6 +5,39 @@ BOUNDED = ("bounded proof: every obligation (assertion, arithmetic-overflow, bou
            "nothing outside the bounds is claimed. ")
 
 CLAIMED = {
+    "C15": dict(
+        text=BOUNDED + "for every pure-pool image (any non-zero flag byte, any u128 total; no value bound) the real program Pool and the "
+             "SDK Pool are executed for long_amount/short_amount, apply_delta_to_{long,short}_amount, checked_apply_delta and "
+             "checked_cancel_amounts with arbitrary i128 deltas: the two views add up to the stored total, a delta moves the total by "
+             "exactly that amount or fails without change, netting leaves total & 1; one inductive step from the representation "
+             "invariant short_token_amount == 0, which every operation is shown to preserve, so any history follows.",
+        note="Trusted: kani-compiler + CBMC/CaDiCaL; pools are built from raw bytes with bytemuck (field offsets 0/16/32 restated in the harness).",
+        technique="Kani/CBMC symbolic execution of the real program and SDK pool code at full u128 width, one inductive step",
+        design="C15"),
+    "C17": dict(
+        text=BOUNDED + "the real Market::init runs on a zero-initialised market with symbolic bump, store, mints (pure and impure), enabled flag "
+             "and clock; every u16 config-key code, all four config flags, the market flags, all clocks and every u8 pool-kind code are "
+             "compared with the documented DEFAULT_* constant / purity rule / zero amounts.",
+        note="Trusted: kani-compiler + CBMC; the key -> DEFAULT_* table in harness/store/src/c17_defaults.rs (constants referenced by name; "
+             "the three MarketClosed* keys and the MarketClosed flag use the open-market default they shadow, EnableMarketClosedParams is false). "
+             "Market name fixed to \"m\"; Clock::get stubbed by an arbitrary clock. Changing the value of a DEFAULT_* constant itself is not detected.",
+        technique="Kani/CBMC symbolic execution of the real Market::init with a symbolic key/flag/pool selector",
+        design="C17"),
+    "C23": dict(
+        text=BOUNDED + "state-machine part only: every ActionState value and every sequence of up to 4 completed()/cancelled() attempts on the real "
+             "gmsol_utils::action::ActionState: exactly one transition out of Pending succeeds, terminal states are absorbing, predicates agree "
+             "with the state. Escrow return (token CPIs in the close instructions) is not decided.",
+        note="Trusted: kani-compiler + CBMC. The instruction-level clauses (escrow goes home, close-once) need Anchor contexts and token CPIs and are outside the claim.",
+        technique="Kani/CBMC symbolic execution of the real ActionState transition functions",
+        design="C23"),
+    "C28": dict(
+        text=BOUNDED + "decoding part only: the real decode_full_report is run on every payload of every length 0..=168 bytes (quick) / 0..=256 bytes "
+             "(thorough): it never panics, never reads out of bounds, never overflows, and returns a blob only when offset/length words are "
+             "in range and the blob lies inside the payload. The report -> PriceFeedPrice conversion is not decided (its harness does not "
+             "finish; kept as tier=experimental).",
+        note="Trusted: kani-compiler + CBMC. Longer payloads and the numeric conversion (ruint U192 arithmetic) are outside the claim.",
+        technique="Kani/CBMC symbolic execution of the real report framing decoder over arbitrary short payloads",
+        design="C28"),
     "C27": dict(
         text=BOUNDED + "is_market_open is compared with an exact i128 reference of the status/flag/freshness policy "
              "for every 64-byte feed-price image, every i64 timestamp, every u32 timeout and every policy byte (no value bound).",
@@ -15,8 +48,8 @@ CLAIMED = {
     "C34": dict(
         text=BOUNDED + "one inductive step of insert/replace/remove/get/get_mut/clear/entries from every map image that "
              "satisfies the representation invariant, with a symbolic probe key (functional map equality), so histories of "
-             "any length follow by induction; the macro is instantiated at capacity 3 (quick) and at the program's "
-             "32-entry/32-byte-key shape (thorough).",
+             "any length follow by induction; the macro is instantiated at capacity 3 with 2-byte keys "
+             "(both tiers run the same harnesses; the 32-entry program shape is not run).",
         note="Trusted: kani-compiler + CBMC; the representation invariant (count<=N, strictly sorted prefix, default tail) "
              "is assumed for the pre-state and proved for the post-state. Key hashing (sha256) is replaced by an identity key "
              "function: the map code is generic in it.",
@@ -33,6 +66,12 @@ CLAIMED = {
 }
 
 NOT_APPLICABLE = {
+    "C25": "harness written (harness/store/src/c25_price_feed.rs, one inductive step of PriceFeed::update through the verif_update hook) but "
+           "CBMC did not finish it within 500-900 s / 6 GB even with format!, sol_log and integer Display stubbed; kept as tier=experimental, not claimed.",
+    "C26": "harness written (harness/utils/src/c26_decimal.rs) but Decimal::try_from_price with symbolic decimals (u128 pow/div by a symbolic "
+           "power of ten) did not finish in CBMC within 900 s; kept as tier=experimental, not claimed.",
+    "C36": "harness written (harness/utils/src/c36_instruction.rs) but the Vec<AccountMeta>-building to_instruction did not finish in CBMC "
+           "(propositional post-processing ran out of memory); kept as tier=experimental, not claimed.",
     "C19": "access control is an attribute on ~200 Anchor entrypoints whose bodies need Context<..> with PDA-validated AccountInfos, "
            "token CPIs and sysvars; a single hand-built entrypoint context did not finish symbolic execution in 17 min/5 GB (probed), "
            "so a property quantified over all instructions is out of reach of solver-based checking here; the authentication core is decided under C18.",
